@@ -227,6 +227,8 @@ pub fn content_small() -> BoxedStrategy<Option<Content>> {
     prop_oneof![
         6 => Just(None),
         3 => proptest::collection::vec(any::<u8>(), 1..24).prop_map(|b| Some(Content::Bytes(b))),
+        // the same bytes again and again: several frames then share one content
+        2 => Just(Some(Content::Bytes(b"shared".to_vec()))),
         1 => any::<u8>().prop_map(|seed| Some(Content::Pattern { len: 9000, seed })),
     ]
     .boxed()
